@@ -767,7 +767,7 @@ func (m *monitor) consume(t *target, chunk int, ins []input, jp jparsed) jlast {
 				r.Count("alloc_over_bound_without_repeat_record", 1)
 			}
 		}
-		if rec.cpu > cpuLimitMicros(len(in.data)) && rec.alloc <= t.allocLimit(len(in.data)) {
+		if rec.cpu > t.cpuLimit(len(in.data)) && rec.alloc <= t.allocLimit(len(in.data)) {
 			m.addSuspect(suspect{kind: "cpu", t: t, in: in, warm: ins[0], chunk: chunk, idx: rec.idx, seen: uint64(rec.cpu)})
 		}
 		kind := map[byte]string{'o': "ok", 'e': "error", 'p': "panic"}[rec.kind]
@@ -847,7 +847,7 @@ func (m *monitor) confirmSuspects() {
 							}
 						}
 					}
-					if s.kind == "cpu" && rec.cpu > cpuLimitMicros(len(s.in.data)) {
+					if s.kind == "cpu" && rec.cpu > s.t.cpuLimit(len(s.in.data)) {
 						hit = true
 						measured = append(measured, uint64(rec.cpu))
 					}
@@ -861,7 +861,7 @@ func (m *monitor) confirmSuspects() {
 				}
 			}
 			det := m.detail(s.t, s.chunk, s.idx, s.in, map[string]interface{}{"first_measurement": s.seen, "stacks_at_cpu_limit": s.note, "isolated_measurements": measured, "bound": map[string]interface{}{
-				"alloc_bytes": s.t.allocLimit(len(s.in.data)), "cpu_us": cpuLimitMicros(len(s.in.data))}})
+				"alloc_bytes": s.t.allocLimit(len(s.in.data)), "cpu_us": s.t.cpuLimit(len(s.in.data))}})
 			switch {
 			case s.kind == "alloc" && confirmed == 1:
 				r.Violation(fmt.Sprintf("alloc target=%s site=%s", s.t.name, site), det)
